@@ -71,6 +71,8 @@ def cases(tier, seed):
             for v in variants:
                 if not _applicable(v, shape):
                     continue
+                if shape == (3, 3, 3) and v != "d3d:xz:F":
+                    continue  # 2^27 volumes: one variant (anti-diagonal, needs flips and a transposition) keeps the thorough tier within budget
                 total = 1 << ncell
                 for lo in range(0, total, CHUNK * 8):
                     out.append(dict(variant=v, shape=list(shape), lo=lo, hi=min(total, lo + CHUNK * 8), seed=seed))
@@ -85,6 +87,7 @@ def bounds(tier, seed):
         "variants_3d": V3D,
         "shapes_2d": s2,
         "shapes_3d": s3,
+        "restriction": "3x3x3 (2^27 arrays) only for the variant d3d:xz:F",
         "arrays": "all 2^cells binary arrays per (variant, shape) + all-distinct and seed real patterns and their symmetrisations",
         "seed": seed,
     }
